@@ -431,6 +431,8 @@ def e2_op_strategies(nparts, ngroups, profile):
         'cellev': st.tuples(st.just('cellev'), st.integers(0, 3),
                             st.booleans()).map(list),
         'cellrm': st.tuples(st.just('cellrm'), st.integers(0, 3)).map(list),
+        'partsched': st.tuples(st.just('partsched'), st.integers(0, 3),
+                               st.integers(0, 5)).map(list),
         # macro: a new master starts while an instance has placement records
         # under two servers
         'dupstart': st.tuples(idx, idx)
@@ -483,6 +485,20 @@ def e2_op_strategies(nparts, ngroups, profile):
         # macro: allocations change, then a publication step is crashed
         'allocscrash': e2_allocs(nparts)
         .map(lambda a: ['macro', [['allocs', a], ['crashcycle']]]),
+        # macro: instances with a lease are running when the reboot schedule
+        # of their partition changes and a new master starts
+        'leasesched': st.tuples(ops_app_placeholder,
+                                st.sampled_from(['1h', '1d', '6d']),
+                                st.integers(1, 3), st.integers(0, 3),
+                                st.integers(0, 5),
+                                st.sampled_from([[], [8 * DAY],
+                                                 [8 * DAY, 3 * DAY],
+                                                 [8 * DAY, 8 * DAY],
+                                                 [8 * DAY, 8 * DAY, 3 * DAY]]))
+        .map(lambda t: ['macro', [['adv', d] for d in t[5]] +
+                        [t[0][:5] + [t[1]] + t[0][6:10] + [t[2]] +
+                         t[0][11:], ['cycle'],
+                         ['partsched', t[3], t[4]], ['restart']]]),
         # macro: a bucket leaves the cell and comes back
         'cellbounce': st.tuples(st.integers(0, 3), st.integers(0, 3))
         .map(lambda t: ['macro', [['cellrm', t[0]], ['cycle'],
@@ -519,7 +535,8 @@ E2_WEIGHTS = {
     'down': 2, 'up': 2, 'downseq': 0, 'downrestart': 0, 'freezeflip': 0,
     'stalemark': 0, 'rmsrvrace': 0, 'priorm': 0, 'shrink': 0, 'flap': 0,
     'bouncemove': 0, 'idgrestart': 0, 'allocscrash': 0, 'blchurn': 0,
-    'dupstart': 0, 'cellrmcrash': 0, 'cellbounce': 0,
+    'dupstart': 0, 'cellrmcrash': 0, 'cellbounce': 0, 'partsched': 0,
+    'leasesched': 0,
     'reboot': 1, 'resize': 1, 'shave': 1, 'repart': 1, 'reparent': 1,
     'state': 1, 'allocs': 1, 'idg': 1, 'rmidg': 1, 'bl': 1, 'blackout': 1,
     'cellev': 1, 'cellrm': 0, 'running': 1, 'adv': 2, 'adv_ret': 1, 'tickreboots': 1,
